@@ -71,6 +71,9 @@ pub struct ItemSpec {
     pub drop_attrs: Vec<String>,
     /// drop `pub` / `pub(crate)` from the extracted fn (its contract names private spec functions)
     pub private: bool,
+    /// the function is not verified here: it is emitted without body, with the contract the named
+    /// unit proves for it (copied mechanically from that unit's .ctr)
+    pub contract_of: Option<String>,
     pub sig: Option<String>,
     pub requires: Vec<Clause>,
     pub ensures: Vec<Clause>,
@@ -193,6 +196,7 @@ pub fn parse_unit(text: &str) -> Unit {
             "@dropderive" => cur_item!().drop_derives.extend(words.clone()),
             "@dropattr" => cur_item!().drop_attrs.extend(words.clone()),
             "@private" => cur_item!().private = true,
+            "@contract_of" => cur_item!().contract_of = Some(words[0].clone()),
             "@sig" => cur_item!().sig = Some(if block_t.is_empty() { rest.clone() } else { block_t.clone() }),
             "@prop" => cur_item!().property = Some(words[0].clone()),
             "@requires" => {
